@@ -1009,6 +1009,11 @@ func ledgerHistory(c *Ctx, id int) {
 			// one first (contract blocks are unsigned; the sequencer is the only thing that keeps the order): refused — the
 			// FIFO monitor judges whatever gets confirmed
 			from := users[c.R.Intn(len(users))]
+			// (first let the contract answer everything that is already queued, so that its inbox holds exactly the two calls)
+			pooled = pooled[:0]
+			if !momentum() || !momentum() {
+				return
+			}
 			mk := func() *nom.AccountBlock {
 				return submit("queue-call", &nom.AccountBlock{BlockType: nom.BlockTypeUserSend, Address: from, ToAddress: types.TokenContract,
 					TokenStandard: types.ZnnTokenStandard, Amount: big.NewInt(int64(1 + c.R.Intn(3))), Data: definition.ABIToken.PackMethodPanic(definition.BurnMethodName)})
@@ -1037,6 +1042,10 @@ func ledgerHistory(c *Ctx, id int) {
 				}
 				if target == s2 && rec != nil && len(rec.received) == 0 {
 					c.Hit("queue-second-first-ACCEPTED")
+					if k := r.contractRecvd[types.TokenContract]; k < len(r.toContractOrder[types.TokenContract]) && r.toContractOrder[types.TokenContract][k] != s2.Hash {
+						r.fail("C04: the token contract's inbox expects send %s next; a receive of the later entry %s (same sender %s) was generated and verified first — calls are answered out of order", h8(r.toContractOrder[types.TokenContract][k]), h8(s2.Hash), addrName(from))
+						return
+					}
 				}
 				ins := n.Chain().AcquireInsert("zvh contract receive")
 				n.Chain().AddAccountBlockTransaction(ins, ce.Transaction)
